@@ -358,6 +358,83 @@ func checkC10(rc *Run) error {
 	}
 	close(jobs)
 	wg.Wait()
+	// the same clause through the other OUTPUT encoders: a stream of documents (with leading comments) printed as xml / json /
+	// props / lua / csv is what each document printed alone gives, in order - an encoder keeps nothing from one document to the next
+	{
+		odir := filepath.Join(rc.Out, "outfmt")
+		os.MkdirAll(odir, 0o755)
+		docs := []string{"# lead one\na: 1\nb: x\n", "c: 2\n", "# lead three\nd:\n  e: 3\n", "f: [4, 5]\n"}
+		for _, of := range []string{"xml", "json", "props", "lua", "yaml", "shell", "toml"} {
+			for _, order := range [][]int{{0, 1}, {1, 0, 1}, {0, 1, 2, 3}, {2, 1, 0}, {0, 0}} {
+				if of == "toml" { // the TOML encoder prints scalars only
+					continue
+				}
+				var stream strings.Builder
+				var alone []string
+				bad := false
+				for i, di := range order {
+					if i > 0 {
+						stream.WriteString("---\n")
+					}
+					stream.WriteString(docs[di])
+					os.WriteFile(filepath.Join(odir, "one.yml"), []byte(docs[di]), 0o644)
+					out, code, err := runYq(odir, "-o="+of, ".", "one.yml")
+					if err != nil || code != 0 {
+						bad = true
+						break
+					}
+					alone = append(alone, out)
+				}
+				if bad {
+					continue
+				}
+				os.WriteFile(filepath.Join(odir, "stream.yml"), []byte(stream.String()), 0o644)
+				out, code, err := runYq(odir, "-o="+of, ".", "stream.yml")
+				if err != nil {
+					continue
+				}
+				compared++
+				strip := func(s string) string { // document separators are the printer's business (Stream.tla), not the encoder's
+					var keep []string
+					for _, l := range strings.Split(s, "\n") {
+						if l != "---" {
+							keep = append(keep, l)
+						}
+					}
+					return strings.Join(keep, "\n")
+				}
+				// comment lines: none may be invented or repeated (a later document's comment may be dropped by an encoder that
+				// only prints the comment in front of the FIRST document of a file: presentation, C05)
+				isComment := func(l string) bool {
+					t := strings.TrimSpace(l)
+					return strings.HasPrefix(t, "#") || strings.HasPrefix(t, "<!--") || strings.HasPrefix(t, "--")
+				}
+				split := func(s string) (content []string, comments map[string]int) {
+					comments = map[string]int{}
+					for _, l := range strings.Split(strip(s), "\n") {
+						if isComment(l) {
+							comments[strings.TrimSpace(l)]++
+						} else {
+							content = append(content, l)
+						}
+					}
+					return
+				}
+				gotC, gotCm := split(out)
+				wantC, wantCm := split(strings.Join(alone, ""))
+				invented := ""
+				for c, n := range gotCm {
+					if n > wantCm[c] {
+						invented = c
+					}
+				}
+				if code != 0 || strings.Join(gotC, "\n") != strings.Join(wantC, "\n") || invented != "" {
+					rc.Report("encoder-carries-state-across-documents:"+of, fmt.Sprintf("yq -o=%s . on the stream %q prints %q (exit %d); the documents alone give %q", of, stream.String(), out, code, alone),
+						M{"machine": "Stream", "concrete": M{"argv": []string{"yq", "-o=" + of, ".", "stream.yml"}, "inputs": M{"stream.yml": stream.String()}}, "expected": strings.Join(alone, ""), "observed": out})
+				}
+			}
+		}
+	}
 	// the first clause on the other input formats: files f1 f2 f3 of one format yield, in order, what each yields alone
 	type fmtFiles struct {
 		format, ext string
